@@ -17,7 +17,7 @@ Trees ==
          N(1, <<"d">>, <<>>, kd, ed, FALSE, sd),
          N(3, <<"e">>, <<<<"e", "1">>>>, ke, TRUE, FALSE, se) >> :
       kb \in Kinds, hb \in {FALSE}, sb \in {FALSE}, kc \in Kinds, sc \in BOOLEAN, kd \in {"plain", "default"}, ed \in BOOLEAN,
-      sd \in BOOLEAN, ke \in {"plain", "default"}, se \in {TRUE} }
+      sd \in {TRUE}, ke \in {"plain", "default"}, se \in {TRUE} }
   ELSE
     { << N(0, <<"a">>, <<<<"a", "1">>>>, ka, TRUE, FALSE, sa),
          N(0, <<"b">>, <<>>, kb, eb, FALSE, sb),
